@@ -77,23 +77,64 @@ _REAL_THREADING = dns.resolver.threading
 _REAL_NODE = dns.resolver.LRUCacheNode
 _REAL_STATS = dns.resolver.CacheStatistics
 
-KEYS = [(dns.name.from_text(f"k{i}.example."), dns.rdatatype.A, dns.rdataclass.IN) for i in range(NKEYS + 2)]
+QNAMES = [dns.name.from_text(f"k{i}.example.") for i in range(NKEYS + 2)]
+KEYS = [(q, dns.rdatatype.A, dns.rdataclass.IN) for q in QNAMES]
+# keys 4 and 5 are falsy objects: any hashable is a key, and `flush(key)` / lookups must test `is None`, not truth
+KEYS[4] = ()
+KEYS[5] = 0
 KID = {k: i for i, k in enumerate(KEYS)}
 _MSG = {}
+ANSWER_PROBLEMS = []  # (signature, what): Answer.expiration differs from creation time + minimum TTL
+SNAPSHOTS = []  # (statistics snapshot object, hits, misses at capture)
+
+
+def _message(k, kind):
+    """one response per (key, kind): 0 plain A, 1 CNAME chain to an A, 2 negative (NODATA with SOA in authority)"""
+    if (k, kind) not in _MSG:
+        qn = QNAMES[k]
+        q = dns.message.make_query(qn, "A")
+        r = dns.message.make_response(q)
+        IN, A = dns.rdataclass.IN, dns.rdatatype.A
+        if kind == 0:
+            rr = r.find_rrset(r.answer, qn, IN, A, create=True)
+            rr.add(dns.rdata.from_text("IN", "A", "10.0.0.1"), 5)
+            parts = [rr]
+        elif kind == 1:
+            tgt = dns.name.from_text(f"t{k}.example.")
+            c = r.find_rrset(r.answer, qn, IN, dns.rdatatype.CNAME, create=True)
+            c.add(dns.rdata.from_text("IN", "CNAME", tgt.to_text()), 5)
+            rr = r.find_rrset(r.answer, tgt, IN, A, create=True)
+            rr.add(dns.rdata.from_text("IN", "A", "10.0.0.2"), 5)
+            parts = [c, rr]
+        else:
+            soa = r.find_rrset(r.authority, dns.name.from_text("example."), IN, dns.rdatatype.SOA, create=True)
+            soa.add(dns.rdata.from_text("IN", "SOA", "ns. host. 1 2 3 4 5"), 5)
+            parts = [soa]
+        _MSG[(k, kind)] = (qn, r, parts)
+    return _MSG[(k, kind)]
 
 
 def make_answer(k: int, v: int, exp: int):
-    """a real dns.resolver.Answer whose expiration (= time.time() + minimum TTL at creation) is `exp`"""
-    if k not in _MSG:
-        qn = KEYS[k][0]
-        q = dns.message.make_query(qn, "A")
-        r = dns.message.make_response(q)
-        rr = r.find_rrset(r.answer, qn, dns.rdataclass.IN, dns.rdatatype.A, create=True)
-        rr.add(dns.rdata.from_text("IN", "A", "10.0.0.1"), 5)
-        _MSG[k] = (qn, r, rr)
-    qn, r, rr = _MSG[k]
+    """a real dns.resolver.Answer whose expiration (= time.time() + minimum TTL at creation) must be `exp`.
+    The answer's identity `v` selects its shape: plain rrset, CNAME chain (the minimum TTL is on either link),
+    negative answer (rrset None, so the Answer object is *falsy*; TTL = min(SOA ttl, SOA minimum))."""
+    kind = {2: 1, 5: 1, 3: 2, 7: 2}.get(v % 8, 0)
+    qn, r, parts = _message(k, kind)
     ttl = min(exp, 7)
-    rr.ttl = ttl
+    if kind == 0:
+        parts[0].ttl = ttl
+    elif kind == 1:
+        lo, hi = (0, 1) if v % 8 == 2 else (1, 0)
+        parts[lo].ttl, parts[hi].ttl = ttl, ttl + 4
+    else:
+        soa = parts[0]
+        if v % 8 == 3:
+            soa.ttl = ttl + 3
+            soa.clear()
+            soa.add(dns.rdata.from_text("IN", "SOA", f"ns. host. 1 2 3 4 {ttl}"), ttl + 3)
+        else:
+            soa.clear()
+            soa.add(dns.rdata.from_text("IN", "SOA", f"ns. host. 1 2 3 4 {ttl + 9}"), ttl)
     saved = CLOCK.t
     CLOCK.t = float(exp - ttl)
     try:
@@ -101,6 +142,10 @@ def make_answer(k: int, v: int, exp: int):
     finally:
         CLOCK.t = saved
     a.vid = v
+    if a.expiration != float(exp):
+        ANSWER_PROBLEMS.append(("C17/Answer.__init__/expiration",
+                                f"Answer of shape {('plain', 'CNAME chain', 'negative')[kind]} created at t={exp - ttl} with minimum TTL {ttl}: "
+                                f"expiration {a.expiration}, expected {exp}"))
     return a
 
 
@@ -158,6 +203,7 @@ def apply_op(cache, tok: str):
         return "U"
     if c == "S":
         s = cache.get_statistics_snapshot()
+        SNAPSHOTS.append((s, SC.raw(s, "hits"), SC.raw(s, "misses")))
         return f"T{SC.raw(s, 'hits')}/{SC.raw(s, 'misses')}"
     raise ValueError(tok)
 
@@ -380,11 +426,14 @@ def detect_intended():
     if "v" not in _VARIANT:
         with clock_installed():
             CLOCK.t = 1000.0
-            c = dns.resolver.LRUCache(4)
-            for i in range(4):
-                c.put(KEYS[i], make_answer(i, i, 2000))
-            c.set_max_size(2)
-            _VARIANT["v"] = len(c.data) <= 2
+            try:
+                c = dns.resolver.LRUCache(4)
+                for i in range(4):
+                    c.put(KEYS[i], make_answer(i, i, 2000))
+                c.set_max_size(2)
+                _VARIANT["v"] = len(c.data) <= 2
+            except Exception:  # noqa: BLE001 - reported by the cases themselves
+                _VARIANT["v"] = True
     return _VARIANT["v"]
 
 
@@ -400,6 +449,12 @@ class clock_installed:
 
 def new_cache(kind, params):
     CLOCK.t = float(params["t0"])
+    if params.get("default"):
+        # the documented defaults: LRUCache() holds 100000 nodes, Cache() sweeps every 300 s
+        c = dns.resolver.LRUCache() if kind == "lru" else dns.resolver.Cache()
+        if kind == "lru":
+            return c, {"ring": [], "max": 100000, "H": 0, "M": 0, "wf": None}
+        return c, {"data": {}, "nc": params["t0"] + 300, "H": 0, "M": 0, "wf": None}
     if kind == "lru":
         c = dns.resolver.LRUCache(params["max"])
         init = {"ring": [], "max": clamp(params["max"]), "H": 0, "M": 0, "wf": None}
@@ -432,13 +487,15 @@ def report(ctx, case, fails, extra=None):
 # ------------------------------------------------------------------------------------------------
 def eval_seq(ctx: Ctx, case: dict):
     kind = case["kind"]
-    params = {"t0": case["t0"], "intended": detect_intended()}
+    params = {"t0": case["t0"], "intended": detect_intended(), "default": case.get("default", False)}
     if kind == "lru":
-        params["max"] = case["max"]
+        params["max"] = 100000 if params["default"] else case["max"]
     else:
-        params["interval"] = case["interval"]
+        params["interval"] = 300 if params["default"] else case["interval"]
     dump = dump_lru if kind == "lru" else dump_cache
     steps = []
+    del ANSWER_PROBLEMS[:]
+    del SNAPSHOTS[:]
     with clock_installed():
         cache, init = new_cache(kind, params)
         params["init"] = init
@@ -455,6 +512,13 @@ def eval_seq(ctx: Ctx, case: dict):
     for tok, out, _ in steps:
         if out.startswith("X"):
             fails.append((f"C17/{'LRUCache' if kind == 'lru' else 'Cache'}.{OPNAME[tok[0]]}/raises", f"{tok} raised {out[1:]}", 0))
+    for sig, what in ANSWER_PROBLEMS:
+        fails.append((sig, what, 0))
+    for snap, h, m in SNAPSHOTS:
+        if (SC.raw(snap, "hits"), SC.raw(snap, "misses")) != (h, m):
+            fails.append((f"C17/{'LRUCache' if kind == 'lru' else 'Cache'}.get_statistics_snapshot/counters/snapshot-aliased",
+                          f"a statistics snapshot taken as {h}/{m} reads {SC.raw(snap, 'hits')}/{SC.raw(snap, 'misses')} after later lookups: it is not a copy", 0))
+            break
     report(ctx, case, fails)
     return fails
 
@@ -835,6 +899,18 @@ BOUNDARY = [
     {"kind": "lru", "max": 1, "t0": 1000, "ops": ["p0:1:2000", "p1:2:2000", "g0", "g1", "p1:3:2000", "g1", "f1", "g1"]},
     # set_max_size: grow, clamp
     {"kind": "lru", "max": 0, "t0": 1000, "ops": ["p0:1:2000", "p1:2:2000", "s3", "p0:3:2000", "p2:4:2000", "p3:5:2000", "s-1", "p4:6:2000"]},
+    # falsy keys ((), 0): flushing one of them must not flush the cache
+    {"kind": "lru", "max": 5, "t0": 1000, "ops": ["p4:1:2000", "p5:2:2000", "p0:4:2000", "g4", "g5", "f4", "g5", "g0", "g4", "f5", "g0", "k0", "k5"]},
+    {"kind": "cache", "interval": 5, "t0": 1000, "ops": ["p4:1:2000", "p5:2:2000", "p0:4:2000", "g4", "g5", "f5", "g4", "g0", "g5", "f4", "g0"]},
+    # every answer shape (plain, CNAME chain with the minimum on either link, negative = falsy Answer object), both caches
+    {"kind": "lru", "max": 8, "t0": 1000, "ops": ["p0:8:1005", "p1:2:1005", "p2:5:1005", "p3:3:1005", "p4:7:1005", "g0", "g1", "g2", "g3", "g4", "k3", "a5", "g1", "g3"]},
+    {"kind": "cache", "interval": 300, "t0": 1000, "ops": ["p0:8:1005", "p1:2:1005", "p2:5:1005", "p3:3:1005", "p4:7:1005", "g0", "g1", "g2", "g3", "g4", "a4", "g3", "a1", "g3", "g4"]},
+    # snapshots are copies
+    {"kind": "lru", "max": 2, "t0": 1000, "ops": ["S", "p0:1:2000", "g0", "g1", "S", "g0", "r", "g1", "S", "h", "m"]},
+    {"kind": "cache", "interval": 5, "t0": 1000, "ops": ["S", "p0:1:2000", "g0", "g1", "S", "g0", "r", "g1", "S", "h", "m"]},
+    # the documented default constructors
+    {"kind": "lru", "default": True, "t0": 1000, "ops": ["p0:1:2000", "p1:2:2000", "g0", "s100001", "p2:3:2000"]},
+    {"kind": "cache", "default": True, "t0": 1000, "ops": ["p0:1:1010", "g0", "a299", "g0", "a1", "g0", "p1:2:1400", "a300", "g1"]},
 ]
 
 
